@@ -169,14 +169,20 @@ def run(ctx):
                 capwhy = 'while a file is being READ (`%s` -> refused) the realloc size is at most %d; in the write modes the size is what the caller\'s own metadata needs' % (b.s(n_['cond'])[:70], b.unwrap(b.N[caps_[0]['kids'][1]])['v'])
     ctx.ob('HDR-CACHE', 'cap', okcap, b.loc(re_[0]), capwhy, None)
     hdr_zero(ctx, prog, 'HDR-CACHE')
-    for name in ('header_read', 'header_gets', 'header_seek', 'psf_binheader_writef'):
+    # a static helper of common.c that makes room in the cache (it tests psf->header.len and / or calls psf_bump_header_allocation) is a capacity test where it is called,
+    # and is itself held to the rule
+    cf_ = prog.fn('header_read', 'common.c').file
+    room = [h_ for h_ in prog.lib_fns() if h_.file == cf_ and h_.static and h_.name not in ('header_read', 'header_gets', 'header_seek') and len(h_.params) >= 2
+            and (list(h_.calls('psf_bump_header_allocation')) or False) and any('cond' in blk_ and 'psf->header.len' in h_.s(blk_['cond']) for blk_ in h_.cfg.blocks.values())]
+    for name in ['header_read', 'header_gets', 'header_seek', 'psf_binheader_writef'] + [h_.name for h_ in room]:
         g = prog.fn(name, 'common.c')
-        guards = [blk for blk in g.cfg.blocks.values() if 'cond' in blk and ('psf->header.len' in g.s(blk['cond']) or 'psf_bump_header_allocation' in g.s(blk['cond']))]
+        guards = [blk for blk in g.cfg.blocks.values() if 'cond' in blk and ('psf->header.len' in g.s(blk['cond']) or 'psf_bump_header_allocation' in g.s(blk['cond'])
+                                                                              or any((h_.name + '(') in g.s(blk['cond']) for h_ in room))]
         gp = [(blk['id'], len(blk['elems'])) for blk in guards] + [g.cfg.point(c) for c in g.calls('psf_bump_header_allocation')]
         writes = []
         for c in g.calls():
             cal = c.get('callee') or ''
-            if cal in ('memcpy', 'memset', 'psf_fread', 'psf_fgets') and g.s(g.unwrap(g.args(c)[0])).startswith('(psf->header.ptr') or cal in ('memcpy', 'memset', 'psf_fread') and g.s(g.unwrap(g.args(c)[0])).startswith('psf->header.ptr'):
+            if cal in ('memcpy', 'memmove', 'memset', 'psf_fread', 'psf_fgets') and g.s(g.unwrap(g.args(c)[0])).startswith('(psf->header.ptr') or cal in ('memcpy', 'memmove', 'memset', 'psf_fread') and g.s(g.unwrap(g.args(c)[0])).startswith('psf->header.ptr'):
                 writes.append(c)
             if cal.startswith('header_put_'):
                 writes.append(c)
